@@ -3,7 +3,7 @@
 # 1. apply to a scratch worktree, build, run the repo suite twice, run the demo (must FAIL), revert, run the demo (must PASS)
 # 2. run the given checks (default: the property's own) against the changed tree
 p=$1; k=$2; checks=${3:-$p}; tier=${4:-quick}
-d=/tmp/sa/$p/out; wt=/tmp/sv-$p-$k
+base=${SEED_BASE:-/tmp/sa}; d=$base/$p/out; wt=/tmp/sv-$p-$k
 [ -f $d/m$k.diff ] || { echo "SEED $p m$k: no diff"; exit 2; }
 git -C /repo worktree remove --force $wt >/dev/null 2>&1
 git -C /repo worktree add --detach $wt HEAD >/dev/null 2>&1
